@@ -9,7 +9,7 @@ RULE = ("point pairs/triples drawn from hostile classes (random, coincident, nea
         "antipodes, axis-aligned, huge/small magnitudes); kernels over a grid of radius/cellsize ratios incl. "
         "non-multiples and cx!=cy, radius given as number or '<num>[ ]<unit>' string; non-trivial = distinct "
         "(class, parameters) whose points are not all identical / whose kernel has more than one cell")
-BUDGET = {'quick': 60, 'thorough': 400}
+BUDGET = {'quick': 120, 'thorough': 400}
 FLOORS = {'quick': {'metric.symmetric': 3000, 'kernel.circle.mask': 300, 'kernel.annulus': 200, 'units.convert': 100,
                     'units.reject': 20, 'gc.range_reject': 50, 'metric.triangle': 2000},
           'thorough': {'metric.symmetric': 30000, 'kernel.circle.mask': 3000, 'kernel.annulus': 2000}}
